@@ -303,6 +303,8 @@ def describe(v, depth=0):
         return '%s.%s' % (type(v).__name__, v.name)
     if isinstance(v, type):
         return 'class ' + v.__name__
+    if depth > 12:
+        return '<... nested deeper than 12 levels (cyclic?)>'
     if isinstance(v, (list, tuple)):
         return [describe(x, depth + 1) for x in v]
     if isinstance(v, dict):
